@@ -1,1 +1,19 @@
+use crate::engine::{run_property, Opts};
+
 pub mod c04;
+pub mod c05;
+pub mod c06;
+pub mod c07;
+pub mod c08;
+
+/// Run the check of property `id`; None if no such check exists.
+pub fn dispatch(id: &str, opts: &Opts) -> Option<i32> {
+    Some(match id {
+        "C04" => run_property(&c04::C04, opts),
+        "C05" => run_property(&c05::C05, opts),
+        "C06" => run_property(&c06::C06, opts),
+        "C07" => run_property(&c07::C07, opts),
+        "C08" => run_property(&c08::C08, opts),
+        _ => return None,
+    })
+}
